@@ -162,8 +162,13 @@ func (rp *ResourcePool) closeIdleResources() {
 	for i := 0; i < available; i++ {
 		verifStep("sweep:recv")
 		var wrapper resourceWrapper
+		var ok bool
 		select {
-		case wrapper, _ = <-rp.resources:
+		case wrapper, ok = <-rp.resources:
+			if !ok {
+				// the pool was closed under the sweep: nothing to give back
+				return
+			}
 		default:
 			// stop early if we don't get anything new from the pool
 			return
